@@ -343,7 +343,12 @@ class ModelCacheMixin:
 
     def min(self, e, extra_constraints=(), signed=False, exact=None):
         cached = []
-        if e.hash() in self._eval_exhausted or e.hash() in self._min_exhausted:
+        # the cached models only determine the optimum of the constraints themselves (not of the constraints plus
+        # extra constraints), and only in the signedness the optimum was searched for
+        if len(extra_constraints) == 0 and (
+            e.hash() in self._eval_exhausted
+            or e.hash() in (self._min_signed_exhausted if signed else self._min_exhausted)
+        ):
             # we set allow_unconstrained to False because we expect all returned values for e are returned by Z3,
             # instead of some arbitrarily assigned concrete values.
             cached = self._get_solutions(e, extra_constraints=extra_constraints, allow_unconstrained=False)
@@ -351,18 +356,23 @@ class ModelCacheMixin:
         if len(cached) > 0:
 
             def signed_key(v):
-                return v if v >= 0 else v + 2 ** len(e)
+                return v if v < 2 ** (len(e) - 1) else v - 2 ** len(e)
 
             return min(cached, key=signed_key if signed else lambda v: v)
 
+        # the model that attains the optimum is only cached if the solver already knows all of e's variables
+        cacheable = len(extra_constraints) == 0 and self.variables.issuperset(e.variables)
         m = super().min(e, extra_constraints=extra_constraints, signed=signed, exact=exact)
-        if len(extra_constraints) == 0:
+        if cacheable:
             (self._min_signed_exhausted if signed else self._min_exhausted)[e.hash()] = e
         return m
 
     def max(self, e, extra_constraints=(), signed=False, exact=None):
         cached = []
-        if e.hash() in self._eval_exhausted or e.hash() in self._max_exhausted:
+        if len(extra_constraints) == 0 and (
+            e.hash() in self._eval_exhausted
+            or e.hash() in (self._max_signed_exhausted if signed else self._max_exhausted)
+        ):
             cached = self._get_solutions(e, extra_constraints=extra_constraints, allow_unconstrained=False)
 
         if len(cached) > 0:
@@ -372,8 +382,9 @@ class ModelCacheMixin:
 
             return max(cached, key=signed_key if signed else lambda v: v)
 
+        cacheable = len(extra_constraints) == 0 and self.variables.issuperset(e.variables)
         m = super().max(e, extra_constraints=extra_constraints, signed=signed, exact=exact)
-        if len(extra_constraints) == 0:
+        if cacheable:
             (self._max_signed_exhausted if signed else self._max_exhausted)[e.hash()] = e
         return m
 
